@@ -63,6 +63,7 @@ package types
 //@   ensures is(seq, List) || is(seq, Vector) || err != nil
 //@   ensures implies(is(seq, List), err == nil && r == seq.(List).Val)
 //@   ensures implies(is(seq, Vector), err == nil && r == seq.(Vector).Val)
+//@   ensures cls(err) == 0 || cls(err) == 5 @C16
 
 // Apply: a closure binds its parameters in a new child of its defining scope and evaluates
 // its body there; a builtin is called with the arguments; anything else is an error.
@@ -139,6 +140,7 @@ package types
 //@ spec evenKeysAreStrings(a []MalType, i int) bool = forall(j, 0, i, implies(j % 2 == 0, is(a[j], string)))
 
 //@ func NewHashMap(seq) (r, e)
+//@   ensures cls(e) == 0 || cls(e) == 5 @C16
 //@   panics never
 //@   assigns nothing
 //@   ensures implies(e == nil, isSeq(seq) && len(elems(seq)) % 2 == 0 && is(r, HashMap) && fresh(r.(HashMap).Val) && evenKeysAreStrings(elems(seq), len(elems(seq))) && pairModel(r.(HashMap).Val, elems(seq), len(elems(seq)))) @C13
@@ -147,6 +149,7 @@ package types
 //@   loop 1 invariant i % 2 == 0 && 0 <= i && i <= len(lst) && fresh(m) && evenKeysAreStrings(lst, i) && pairModel(m, lst, i) @C13
 
 //@ func NewSet(seq) (r, e)
+//@   ensures cls(e) == 0 || cls(e) == 5 @C16
 //@   panics never
 //@   assigns nothing
 //@   ensures implies(seq == nil, e == nil && len(r.Val) == 0) @C13
